@@ -86,7 +86,7 @@ var dtMethodOf = map[string]string{"date": "date", "time": "time", "timetz": "ti
 
 func valueRec(id int, ty string, t time.Time, zone string) DTRec {
 	loc, _ := run.Zone(zone)
-	ctx := types.ContextWithTZ(context.Background(), loc)
+	ctx := run.BaseContext(loc)
 	var v types.DateTime
 	switch ty {
 	case "date":
@@ -137,13 +137,13 @@ func valueRec(id int, ty string, t time.Time, zone string) DTRec {
 	}
 	r.PStr = pstr(ctx)
 	other, _ := run.Zone([]string{"+10:00", "America/New_York", "-04:00"}[id%3])
-	r.PStz = pstr(types.ContextWithTZ(context.Background(), other), exec.WithTZ())
+	r.PStz = pstr(run.BaseContext(other), exec.WithTZ())
 	return r
 }
 
 func commuteRec(id int, ty string, t time.Time, zone string) DTRec {
 	loc, _ := run.Zone(zone)
-	ctx := types.ContextWithTZ(context.Background(), loc)
+	ctx := run.BaseContext(loc)
 	r := DTRec{ID: id, Kind: "commute", Ty: ty, Zone: zone, In: noDT, Val: noDT, Parsed: DTOut{St: "no", V: noDT}, Unm: DTOut{St: "err", V: noDT},
 		JSON: []int{}, PStr: []int{}, PStz: []int{}, Data: []int{}, Up: DTOut{St: "no", V: noDT}, Down: DTOut{St: "no", V: noDT}}
 	protect(func() {
